@@ -50,6 +50,7 @@ from dask.utils import (
     pseudorandom,
     random_state_data,
 )
+from pandas.api.types import is_dict_like
 from pandas.errors import PerformanceWarning
 from tlz import merge_sorted, partition, unique
 
@@ -1275,24 +1276,51 @@ class RenameSeries(Elemwise):
 
 
 class Fillna(Elemwise):
-    _projection_passthrough = True
     _parameters = ["frame", "value"]
     _defaults = {"value": None}
     operation = M.fillna
 
+    @property
+    def _projection_passthrough(self):
+        # A dict-like value is keyed by column labels and only has that
+        # meaning on the whole frame, not on a projected Series
+        return not is_dict_like(self.operand("value"))
+
 
 class Replace(Elemwise):
-    _projection_passthrough = True
     _parameters = ["frame", "to_replace", "value", "regex"]
     _defaults = {"to_replace": None, "value": no_default, "regex": False}
     _keyword_only = ["value", "regex"]
     operation = M.replace
 
+    @property
+    def _projection_passthrough(self):
+        return not (
+            is_dict_like(self.operand("to_replace"))
+            or is_dict_like(self.operand("value"))
+        )
+
 
 class Isin(Elemwise):
-    _projection_passthrough = True
     _parameters = ["frame", "values"]
     operation = M.isin
+
+    @property
+    def _projection_passthrough(self):
+        # DataFrame.isin accepts a dict keyed by column labels, which a
+        # projected Series cannot interpret
+        values = self.operand("values")
+        if not isinstance(values, Expr):
+            return not is_dict_like(values)
+        obj = values.operand("obj") if "obj" in values._parameters else None
+        if hasattr(obj, "dask") and hasattr(obj, "key"):
+            # values wrapped by ``delayed``: a dict becomes the task ``(dict, [...])``
+            task = dict(obj.dask).get(obj.key)
+            if isinstance(task, dict) or (
+                isinstance(task, tuple) and len(task) > 0 and task[0] is dict
+            ):
+                return False
+        return True
 
     @functools.cached_property
     def _meta(self):
